@@ -348,7 +348,12 @@ func prepareCorrectionOptions(o *CorrectionOptions, opts ...schema.Option) error
 
 	// Copy over the stamps from the previous header
 	if o.Head != nil && len(o.Head.Stamps) > 0 {
-		o.Stamps = append(o.Stamps, o.Head.Stamps...)
+		for _, s := range o.Head.Stamps {
+			if s != nil {
+				cp := *s // copy, the original header must not be modified
+				o.Stamps = append(o.Stamps, &cp)
+			}
+		}
 	}
 
 	// If we have a raw json object, this will override any of the other options
